@@ -238,6 +238,23 @@ theorem signed_digits_agree (neg : Bool) (ds : List Nat) (hne : ds ≠ [])
     StrNum.mechT ((if neg then [0x2D] else []) ++ ds) = StrNum.specT ((if neg then [0x2D] else []) ++ ds) :=
   StrNum.signed_digits_agree' neg ds hne hd
 
+/-- Whenever the mechanism falls through to `strconv.ParseFloat` (no integer parse, not "-0", no underscore, no radix
+prefix, no hex-float prefix, not one of ParseFloat's special words inf/infinity/nan) and the text is not an Infinity
+form, its answer is the spec recogniser's — for every such text (fractions, exponents, invalid remainders …). -/
+theorem parseFloat_path_agree (t : List Nat) (hne : t.isEmpty = false)
+    (hinf : (t == StrNum.str "Infinity" || t == StrNum.str "+Infinity") = false)
+    (hminf : (t == StrNum.str "-Infinity") = false)
+    (hsti : StrNum.stringToInt t = none) (hm0 : (t == StrNum.str "-0") = false) (hus : t.contains 0x5F = false)
+    (hrp : StrNum.radixPrefix t = 0)
+    (hhex : ∀ x r, (StrNum.splitSign t).2 = 0x30 :: x :: r → ¬ (x = 0x78 ∨ x = 0x58))
+    (hsp : StrNum.goSpecial t = false) (hbinf : ((StrNum.splitSign t).2 == StrNum.str "Infinity") = false) :
+    StrNum.mechT t = StrNum.specT t :=
+  StrNum.parseFloat_path_agree' t hne hinf hminf hsti hm0 hus hrp hhex hsp hbinf
+
+/-- non-vacuity of the hypotheses above: "1.5e3" satisfies them all -/
+example : StrNum.mechT (StrNum.str "1.5e3") = StrNum.Res.num false 15 2 ∧ StrNum.stringToInt (StrNum.str "1.5e3") = none ∧
+    StrNum.goSpecial (StrNum.str "1.5e3") = false := by decide
+
 /-! ## 6. Hypotheses are satisfiable / non-vacuity (tests on literals) -/
 
 example : Canon (int 7) ∧ Canon (flt F64.negZero) ∧ Canon (flt (F64.mk' false 1030 1)) :=
